@@ -29,7 +29,7 @@ ASSUMPTIONS = ['one generator resume counts as one invocation (CPython reports c
 REQUIRE = {'openings': 1500, 'span_openings': 600, 'capture_openings': 300, 'recursive_openings': 60,
            'openings_in_threads': 40, 'exception_exits': 60,
            'withdrawn_mid_flight': 30, 'several_span_processors': 100,
-           'openings_overlapping_same_function_in_another_thread': 40, 'deep_recursion_cases': 10, 'with_a_declining_span_processor': 30}
+           'openings_overlapping_same_function_in_another_thread': 40, 'deep_recursion_cases': 10, 'with_a_declining_span_processor': 30, 'snapshot_ahead_of_span': 15}
 
 
 def plan(tier, seed):
@@ -113,6 +113,11 @@ def case_deferred(seed, out, spec, wd, idx):
             if not own:
                 continue
             ln = own[-1] if r.chance(0.6) else r.pick(own)
+            if r.chance(0.4):
+                # an ordinary snapshot tracepoint on the same line, ahead of the span: if handing its snapshot over
+                # fails, the span of that hit is opened and closed all the same
+                trigs.append(line_trigger(tp_id + 'S', prog.base, ln, dict(common), [], []))
+                out.count('snapshot_ahead_of_span')
             trigs.append(line_trigger(tp_id, prog.base, start,
                                       dict(common, span='method', method_name=f, snapshot='no_collect'), [], []))
             trigs.append(line_trigger(tp_id + 'L', prog.base, ln, dict(common, span='line', snapshot='no_collect'), [], []))
